@@ -95,17 +95,32 @@ theorem rebuild_spec (Good : List AttrVal → Prop) (hF : ∀ as, Good as → (A
       · exact Res.nest (by simpa [State.roots, owned, ownedOpt] using hinv) hnx1 hoth1 s2
   | .tuple bs, a, ty, st, er, d, p, pre, post, hw, ha, hb, ga, gb, hrep, hinv => by
     cases ty <;> simp [hasTy] at hb
-    rename_i ts
-    cases a <;> simp [hasTy] at ha
-    rename_i as
-    cases st <;> simp only [Rep] at hrep
-    rename_i sts
-    rw [rebuild_tuple]
-    simp [Ty.wf] at hw
-    simp only [AllEl] at ga gb
-    have := rebuildList_spec Good hF hR bs as ts sts er d p pre post hw.2 ha hb ga gb hrep
-      (by simpa [State.roots, owned] using hinv)
-    exact ⟨by simpa only [Rep] using this.1, by simpa [State.roots, owned] using this.2⟩
+    · rename_i ts
+      cases a <;> simp [hasTy] at ha
+      rename_i as
+      cases st <;> simp only [Rep] at hrep
+      rename_i sts
+      rw [rebuild_tuple]
+      simp [Ty.wf] at hw
+      simp only [AllEl] at ga gb
+      have := rebuildList_spec Good hF hR bs as ts sts er d p pre post hw.2 ha hb ga gb hrep
+        (by simpa [State.roots, owned] using hinv)
+      exact ⟨by simpa only [Rep] using this.1, by simpa [State.roots, owned] using this.2⟩
+    · -- `[T; n]`: the members all have type `t`
+      rename_i n t
+      cases a <;> simp [hasTy] at ha
+      rename_i as
+      cases st <;> simp only [Rep] at hrep
+      rename_i sts
+      rw [rebuild_tuple]
+      simp [Ty.wf] at hw
+      simp only [AllEl] at ga gb
+      have hla := hasTyAll_list as t ha.2
+      have hlb := hasTyAll_list bs t hb.2
+      rw [ha.1] at hla; rw [hb.1] at hlb
+      have := rebuildList_spec Good hF hR bs as (List.replicate n t) sts er d p pre post
+        (wfList_replicate n t hw) hla hlb ga gb hrep (by simpa [State.roots, owned] using hinv)
+      exact ⟨by simpa only [Rep] using this.1, by simpa [State.roots, owned] using this.2⟩
   | .onone, a, ty, st, er, d, p, pre, post, hw, ha, hb, ga, gb, hrep, hinv => by
     cases ty <;> simp [hasTy] at hb
     rename_i t
@@ -124,7 +139,7 @@ theorem rebuild_spec (Good : List AttrVal → Prop) (hF : ∀ as, Good as → (A
       obtain ⟨rfl, hro⟩ := hrep
       rw [rebuild_onone]
       simp only [Nat.zero_ne_one, if_false]
-      have hne := roots_ne_nil va t old (some p) hw ha hro
+      have hne := roots_ne_nil va t old (some p) hw.1 hw.2 ha hro
       obtain ⟨h1, h2⟩ := replace_spec va .unit old d p pre post hro
         (by simpa [State.roots, owned] using hinv) hne (by simp [AllEl])
       refine ⟨?_, by simpa [State.roots, owned] using h2⟩
@@ -152,7 +167,7 @@ theorem rebuild_spec (Good : List AttrVal → Prop) (hF : ∀ as, Good as → (A
       obtain ⟨rfl, hro⟩ := hrep
       rw [rebuild_osome]
       simp only [if_true]
-      obtain ⟨h1, h2⟩ := rebuild_spec Good hF hR vb va t old er d p pre post hw ha hb ga gb hro
+      obtain ⟨h1, h2⟩ := rebuild_spec Good hF hR vb va t old er d p pre post hw.1 ha hb ga gb hro
         (by simpa [State.roots, owned] using hinv)
       exact ⟨by simp only [Rep]; exact ⟨trivial, h1⟩, by simpa [State.roots, owned] using h2⟩
   | .either n i vb, a, ty, st, er, d, p, pre, post, hw, ha, hb, ga, gb, hrep, hinv => by
@@ -176,10 +191,11 @@ theorem rebuild_spec (Good : List AttrVal → Prop) (hF : ∀ as, Good as → (A
       simp only [if_true]
       simp [hj] at hb
       obtain ⟨h1, h2⟩ := rebuild_spec Good hF hR vb va tj old er d p pre post
-        (wfList_get ts i tj hw.2 hj) ha.2 hb.2 ga gb hro (by simpa [State.roots, owned] using hinv)
+        (wfList_get ts i tj hw.1.2 hj) ha.2 hb.2 ga gb hro (by simpa [State.roots, owned] using hinv)
       exact ⟨by simp only [Rep]; exact ⟨trivial, h1⟩, by simpa [State.roots, owned] using h2⟩
     · simp only [hij, if_false]
-      have hne := roots_ne_nil va tj old (some p) (wfList_get ts j' tj hw.2 hj) ha.2 hro
+      have hne := roots_ne_nil va tj old (some p) (wfList_get ts j' tj hw.1.2 hj)
+        (nodefulAll_get ts j' tj hw.2 hj) ha.2 hro
       obtain ⟨h1, h2⟩ := replace_spec va vb old d p pre post hro
         (by simpa [State.roots, owned] using hinv) hne (AllEl.mono hF vb gb)
       exact ⟨by simp only [Rep]; exact ⟨trivial, h1⟩, by simpa [State.roots, owned] using h2⟩
@@ -197,11 +213,11 @@ theorem rebuild_spec (Good : List AttrVal → Prop) (hF : ∀ as, Good as → (A
     · have := Ty.beq_eq tyb ty' hbe
       subst this
       simp only [hbe, if_true]
-      obtain ⟨h1, h2⟩ := rebuild_spec Good hF hR vb va tyb old true d p pre post hb.1 ha.2 hb.2 ga gb hro
+      obtain ⟨h1, h2⟩ := rebuild_spec Good hF hR vb va tyb old true d p pre post hb.1.1 ha.2 hb.2 ga gb hro
         (by simpa [State.roots, owned] using hinv)
       exact ⟨by simp only [Rep]; exact ⟨trivial, h1⟩, by simpa [State.roots, owned] using h2⟩
     · simp only [hbe, Bool.false_eq_true, if_false]
-      have hne := roots_ne_nil va ty' old (some p) ha.1 ha.2 hro
+      have hne := roots_ne_nil va ty' old (some p) ha.1.1 ha.1.2 ha.2 hro
       obtain ⟨h1, h2⟩ := replace_spec va vb old d p pre post hro
         (by simpa [State.roots, owned] using hinv) hne (AllEl.mono hF vb gb)
       exact ⟨by simp only [Rep]; exact ⟨trivial, h1⟩, by simpa [State.roots, owned] using h2⟩
